@@ -1,6 +1,7 @@
 (* Props_C20.v — C20: correlated-k reduces to cross-sections when the k-distribution is degenerate. *)
 From Coq Require Import Reals List Lra.
 From TV Require Import Num ListNum ListNumR Model_C01 Proofs_C01 Model_C20 Proofs_C20 Model_C02 Proofs_C02k.
+From TV Require Import NumIv Reflect.
 Import ListNotations.
 Local Open Scope R_scope.
 
@@ -49,3 +50,12 @@ Theorem C20_degenerate_emission : forall (B d xs : list R) (kd : list (list R)) 
   @kintensity R RTNum B d kd ws m = @intensity R RTNum B (map2 Rplus d xs) [] [] m.
 Proof. exact k_degenerate_intensity. Qed.
 Print Assumptions C20_degenerate_emission.
+
+(* the executed (interval) instance of the correlated-k optical depth encloses the real-number instance
+   (Reflect.v: by induction over the lists from the Interval library's correctness lemmas) *)
+Theorem C20_ktau_enclosed : forall sI sR wI wR rI rR pI pR l w,
+  Forall2 (Forall2 encl_list) sI sR -> encl_list wI wR -> encl_list rI rR -> encl_list pI pR ->
+  0 < @ktrans R RTNum wR (map (@ktau_g R RTNum sR rR pR l w) (seq 0 (length wR))) ->
+  encloses (@ktau _ IvTNum sI wI rI pI l w) (@ktau R RTNum sR wR rR pR l w).
+Proof. exact ktau_transfer. Qed.
+Print Assumptions C20_ktau_enclosed.
